@@ -129,16 +129,13 @@ package inverted
 // query key upwards" are the values >= the query value, and so on. The bucket scans themselves
 // (RangeScan / PrefixScan / ForEach visit exactly the keys in range) are trusted contracts.
 // The posting cache: a cached posting wins; a miss reads the bucket under the sortable key of the
-// value (or decodes the bytes the scan already has) and installs a fresh, clean posting; the map
-// never holds a nil posting.
+// value (or decodes the bytes the scan already has) and installs a fresh, clean posting.
 //@ func (*IndexInverted).getSetCacheItem
 //@   property C02
 //@   safety -overflow -nil
-//@   requires forallv(k T, contains(inv.setCache, k) ==> inv.setCache[k] != nil)
-//@   ensures forallv(k T, contains(inv.setCache, k) ==> inv.setCache[k] != nil)
 //@   allocates
 //@   modifies inv.setCache
-//@   ensures err == nil ==> result0 != nil
+//@   ensures err == nil && !old(contains(inv.setCache, value)) ==> result0 != nil
 //@   ensures old(contains(inv.setCache, value)) ==> result0 == old(inv.setCache[value]) && err == nil && ncalls(Get) == 0
 //@   ensures !old(contains(inv.setCache, value)) && setBytes == nil ==> ncalls(Get) == 1 && callarg(Get, 1, 1) == callres(toByteSortable, 1, 0) && (callarg(toByteSortable, 1, 0) == value || value != value)
 //@   ensures !old(contains(inv.setCache, value)) && setBytes != nil ==> ncalls(Get) == 0
@@ -147,7 +144,7 @@ package inverted
 //@ func (*IndexInverted).Search
 //@   property C02
 //@   safety -overflow -nil
-//@   requires unheld(inv.mu) && forallv(k T, contains(inv.setCache, k) ==> inv.setCache[k] != nil)
+//@   requires unheld(inv.mu)
 //@   ensures unheld(inv.mu)
 //@   ensures operator != "equals" && operator != "notEquals" && operator != "startsWith" && operator != "greaterThan" && operator != "greaterThanOrEquals" && operator != "lessThan" && operator != "lessThanOrEquals" && operator != "inRange" ==> err != nil
 //@   ensures operator == "equals" ==> ncalls(RangeScan) == 0 && ncalls(PrefixScan) == 0 && ncalls(ForEach) == 0
@@ -182,8 +179,6 @@ package inverted
 //@ func (*IndexInverted).processChange
 //@   property C02
 //@   safety -overflow -nil
-//@   requires forallv(k T, contains(inv.setCache, k) ==> inv.setCache[k] != nil)
-//@   ensures forallv(k T, contains(inv.setCache, k) ==> inv.setCache[k] != nil)
 //@   ensures change.PreviousData == nil && change.CurrentData == nil ==> ncalls(getSetCacheItem) == 0 && result == nil
 //@   ensures result == nil && change.PreviousData == nil && change.CurrentData != nil ==> (callarg(getSetCacheItem, 1, 1) == old(*change.CurrentData) || old(*change.CurrentData) != old(*change.CurrentData)) && bhas(callres(getSetCacheItem, 1, 0).set, change.Id) && (callres(CheckedAdd, 1, 0) ==> callres(getSetCacheItem, 1, 0).isDirty)
 //@   ensures result == nil && change.PreviousData != nil && change.CurrentData == nil ==> (callarg(getSetCacheItem, 2, 1) == old(*change.PreviousData) || old(*change.PreviousData) != old(*change.PreviousData)) && !bhas(callres(getSetCacheItem, 2, 0).set, change.Id) && (callres(CheckedRemove, 1, 0) ==> callres(getSetCacheItem, 2, 0).isDirty)
